@@ -22,6 +22,7 @@ MANIFEST = {
              "abstraction (indentation + statement kind per line) of the real generated __init__/process* code; parse_indent agrees with "
              "CPython's ast.parse (also on perturbed indentation); CTransitionTableModel vs Model/TTable.v; the real modules are imported in a "
              "subprocess and driven through Trigger<Event> under a tracing controller subclass and compared with the interpreter. "
+             "WHOLE FILE (C08_sem_engine_whole, C08_whole_file_is_shipped): the shipped TEMPLATEStateMachine.py as a whole is inside the C16 grammar; the signature strings of the events (get_event_signature, printed by LanguagePython) are an INTERFACE ORACLE -- a parameter of model and theorem, read per case from the real Language object; for every table / interface / oracle / user-tag assignment admitted for the file (py_file_wf, evaluated per case) the pipeline writes Lpre ++ L with L reading line by line as the process part of gen_py and items 34/40/41 as its constructor part; the real <Name>StateMachine.py is compared AS A WHOLE with the reference on every case. " 
              "ENGINE BRIDGE (C08_sem_engine_full, C08_sem_engine, C08_block_structure_engine, C08_ref_reads, C08_init_reads, C08_wf_table_admitted): for every well-formed table the "
              "file the engine model's pipeline writes from the State Processing region of the SHIPPED template (Model/PyRender.py_proc16: the "
              "lines of Gen/Templates.v from def process on, read into the template syntax of C16, checked to render back and to lie in "
@@ -33,7 +34,7 @@ MANIFEST = {
              "NoTransition). Modelled, not verified: CPython executing if/return/method calls as the big-step semantics says; the construction of the event object in "
              "Trigger<Event> (that Trigger calls process(event) synchronously exactly once when StateMachineThread=0 is now part of the theorem, "
              "C08_sem_triggered, from the IR of Gen/PySync.v; threaded delivery is C11); isinstance on distinct event classes = name equality. "
-             "The three behaviour-deciding constructor lines (def, entry callback and assignment of <<<STATE_0>>>; selected from the shipped file like translator/pytmpl.py does: PyRender.py_init16) go through the engine too (C08_sem_engine_full, C08_init_reads; filterInitialState is part of the C16 grammar), compared with the real text on every case. The process region and the constructor lines are run through the engine model as templates of their own (the whole shipped file is outside the C16 grammar: SIGNATURE, TTT_BOOST_SML, user tags); that the real engine produces the same text inside the whole file is observed on every case, not proved. "
+             "The three behaviour-deciding constructor lines (def, entry callback and assignment of <<<STATE_0>>>; selected from the shipped file like translator/pytmpl.py does: PyRender.py_init16) go through the engine too (C08_sem_engine_full, C08_init_reads; filterInitialState is part of the C16 grammar), compared with the real text on every case. The process region and the constructor lines are run through the engine model as templates of their own (the whole shipped file is outside the C16 grammar: SIGNATURE, TTT_BOOST_SML, user tags); that the real engine produces these texts inside the whole file is now the theorem C08_sem_engine_whole (with the signature oracle). "
              "Names: the theorems carry the hypothesis py_names_ok (no table name is one of the template module's bare names); that list is computed from the template "
              "by translator/pytmpl.py on every run (which also requires the controller's star import to be the FIRST import), pinned by C08_name_domain, used by the case "
              "generator, and every reserved name is probed on the real code as an event with a parameter."),
@@ -48,7 +49,8 @@ ASSUMPTIONS = ["wf_table: non-empty table; start state and event are UpperCamelC
                "non-threaded delivery (user tag StateMachineThread=0); the threaded queue is property C11",
                "py_names_ok: no state/event/action/guard is one of the template module's bare names (Gen/PyTmpl.v py_reserved_names: Enum, EventStartup, auto, queue, threading, unique) "
                "nor <Name>StateId / <Name>StateMachine; NoTransition, On<State>Entry/Exit of another state, process<State> likewise"]
-TRUSTED = ["Coq 8.16.1 kernel (coqc; coqchk in the thorough tier)", "axioms: none",
+TRUSTED = ["INTERFACE ORACLE: the signature strings smgen.get_event_signature(name, False/True) (LanguagePython.ParameterString / GetFactoryCreateParams) enter C08_sem_engine_whole as the parameter sigs; the harness reads them from the real Language object on every case",
+           "Coq 8.16.1 kernel (coqc; coqchk in the thorough tier)", "axioms: none",
            "translator/pytmpl.py (regex classification of the template's __init__ tail and State Processing section, fail closed)",
            "extraction: ExtrOcamlBasic + ExtrOcamlNativeString; ocaml/cmds_sm.ml",
            "harness abstraction of generated Python lines to (indent, kind, name) by regex",
@@ -320,6 +322,34 @@ def one_case(ctx, table, spec, evs_with_args, bits, correspond=True):
             if ilines + [""] != iref:
                 ctx.tie_broken("the constructor's initial-state lines of the generated module differ from ref16 of Model/PyRender.py_init16",
                                {"table": table, "real": ilines, "ref16": iref})
+            # THE WHOLE FILE (C08_sem_engine_whole): the real module as a whole is ref16 of the whole shipped template, the signature strings of the
+            # events being the interface oracle (read from the real Language object)
+            from .. import engine_e2e as e2e
+            from kojen import LanguagePython
+            iface_w = smlib.build_iface(spec)
+            structs_w, protos_w, msgs_w = e2e.iface_parts(iface_w)
+            lang = LanguagePython.LanguagePython()
+            evs_all = []
+            for r0 in table:
+                if r0[1] != "" and r0[1].lower() != "none" and r0[1] not in evs_all:
+                    evs_all.append(r0[1])
+            evs_all += [n for n in structs_w if n not in evs_all]
+            def sig_of(nm, wd):
+                for st in iface_w.All():
+                    if st.Name == nm:
+                        return lang.ParameterString(lang.GetFactoryCreateParams(st, iface_w, wd))
+                return ""
+            sigs = [[nm, sig_of(nm, False), sig_of(nm, True)] for nm in evs_all]
+            ut = [[k, "" if v is None else str(v)] for k, v in spec.get("usertags", {}).items()]
+            if ctx.km.call("py.file_wf", rows, structs_w, protos_w, msgs_w, sigs, ut) == b"1":
+                ctx.count("whole_file_inside_domain")
+                whole = ctx.km.call("py.file_ref", rows, structs_w, protos_w, msgs_w, sigs, ut).decode("utf-8", "surrogateescape")
+                if whole != src:
+                    kk = next((j for j, (x, y) in enumerate(zip(whole, src)) if x != y), min(len(whole), len(src)))
+                    ctx.tie_broken("the generated StateMachine.py differs from ref16 of the whole shipped template (Model/PyRender.py_file16)",
+                                   {"table": table, "sigs": sigs, "at": kk, "real": src[max(0, kk - 100):kk + 150], "ref16": whole[max(0, kk - 100):kk + 150]})
+            else:
+                ctx.count("whole_file_outside_domain")
             if ctx.km.call("py.proc_reads", rows, [], [], []) != b"1":
                 ctx.tie_broken("py_proc_reads false although C08_ref_reads is proved", {"table": table})
         # the model's own run agrees with the spec on this case (re-evaluates the theorem's instance outside Coq)
